@@ -36,12 +36,13 @@ def r1(c):
                    f"(`{norm(other[0])[:60] if other else str(len(stores)) + ' stores'}`): the first (or last) listed generator wins instead of the highest priority", key_text="store-shape")
         return
     st = stores[0]
-    ok = norm(st.targets[0].slice) == "result.path" and norm(st.value) == "result"
+    pv = Provenance(fn)
+    ok = norm(pv.resolve_alias(st.targets[0].slice)) == "result.path" and norm(pv.resolve_alias(st.value)) == "result"
     c.check("C19.R1", ok, repo.loc(m, st), "add_entire/store-key", "the result is not stored under its own path", key_text="key")
 
     def ren(s):
         return {"result.path in self.entire_results": "present", "self.entire_results[result.path].prio < result.prio": "higher"}.get(s, s)
-    f = gm.formula(st, G.GuardEnv(rename=ren))
+    f = gm.formula(st, G.GuardEnv(rename=ren), alias=True)
     f2 = G.And(*[g for g in (f[1:] if f[0] == "and" else [f]) if g != G.Atom("result.path")])
     spec = G.Or(G.Not(G.Atom("present")), G.Atom("higher"))
     c.check("C19.R1", G.equivalent(f2, spec), repo.loc(m, st), "add_entire/priority-guard", f"stored under {G.show(f2)}; expected path absent ∨ result.prio > stored.prio (strictly, same path)", key_text="prio-guard")
@@ -188,10 +189,27 @@ def r5(c):
     fn = repo.func(RESULT, "RunGeneratorResult.new_files")
     c.count("functions")
     gm = GuardMap(fn)
-    st = [n for n in walk_no_nested(fn) if isinstance(n, ast.Assign) and isinstance(n.targets[0], ast.Subscript) and norm(n.targets[0].value) == "files"]
-    if len(st) != 1:
-        raise AnchorError("new_files: store not found")
-    f = gm.formula(st[0], G.GuardEnv(rename=lambda s: {"gr.is_safe": "is_safe"}.get(s, s)))
-    c.check("C19.R5", G.equivalent(f, G.Or(G.Not(G.Atom("safe")), G.Atom("is_safe"))), repo.loc(m, st[0]), "new_files/safe-filter", f"included under {G.show(f)}; expected ¬safe ∨ is_safe", key_text="safe")
-    ok = norm(st[0].targets[0].slice) == "gr.path" and norm(st[0].value) == "(gr.output, gr.reload)" and norm(gm.in_loop(st[0])[-1].iter) == "self.entire_results.values()"
-    c.check("C19.R5", ok, repo.loc(m, st[0]), "new_files/entry", "entry is not path -> (output, reload) of every stored result", key_text="entry")
+    pv = Provenance(fn)
+    rets = [n for n in walk_no_nested(fn) if isinstance(n, ast.Return) and n.value is not None]
+    if len(rets) != 1:
+        raise AnchorError("new_files: single return not found")
+    res = pv.resolve_alias(rets[0].value)
+    # the returned mapping is built either by a loop storing into a local dict or by a dict comprehension
+    if isinstance(res, ast.DictComp) and len(res.generators) == 1 and isinstance(res.generators[0].target, ast.Name):
+        g = res.generators[0]
+        ev, it, key, val, anchor = g.target.id, g.iter, res.key, res.value, res
+        ren = lambda s: {f"{ev}.is_safe": "is_safe"}.get(s, s)
+        f = G.And(gm.formula(rets[0], G.GuardEnv(rename=ren), skip_early=True), *[G.formula(i, G.GuardEnv(rename=ren)) for i in g.ifs])
+    else:
+        if not isinstance(rets[0].value, ast.Name):
+            raise AnchorError("new_files: store not found")
+        dn = rets[0].value.id
+        st = [n for n in walk_no_nested(fn) if isinstance(n, ast.Assign) and isinstance(n.targets[0], ast.Subscript) and norm(n.targets[0].value) == dn]
+        if len(st) != 1 or not gm.in_loop(st[0]) or not isinstance(gm.in_loop(st[0])[-1].target, ast.Name):
+            raise AnchorError("new_files: store not found")
+        loop = gm.in_loop(st[0])[-1]
+        ev, it, key, val, anchor = loop.target.id, loop.iter, st[0].targets[0].slice, pv.resolve_alias(st[0].value), st[0]
+        f = gm.formula(st[0], G.GuardEnv(rename=lambda s: {f"{ev}.is_safe": "is_safe"}.get(s, s)))
+    c.check("C19.R5", G.equivalent(f, G.Or(G.Not(G.Atom("safe")), G.Atom("is_safe"))), repo.loc(m, anchor), "new_files/safe-filter", f"included under {G.show(f)}; expected ¬safe ∨ is_safe", key_text="safe")
+    ok = norm(key) == f"{ev}.path" and norm(val) == f"({ev}.output, {ev}.reload)" and norm(it) == "self.entire_results.values()"
+    c.check("C19.R5", ok, repo.loc(m, anchor), "new_files/entry", "entry is not path -> (output, reload) of every stored result", key_text="entry")
